@@ -8,7 +8,7 @@ specification-side device (NA/Spec/AsaDev.lean).
 Input: one case per line, tab separated `key=value` fields
   ai  device interfaces (nameif), `,`
   ag / bg  groups   `name:m1,m2;name:…`           (members without `network-object `)
-  aa / ba  ACLs     `name#body~nolog~r1,r2#…;…`   (body with `$REF` placeholders)
+  aa / ba  ACLs     `name#body~nolog~r1,r2#…;…`   (body split at the `$REF` placeholders, parts joined by `^`)
   ab / bb  bindings `acl dir intf,…`
   ar / br  routes   `text~dst~sortKey,…`
   sa  Myers scripts of ACL pairs    `aName>bName:lowA,highA,lowB,highB/…;…`
@@ -31,8 +31,8 @@ def parseGroups (s : String) : List (Name × List String) :=
 
 def parseLine (s : String) : Line :=
   match s.splitOn "~" with
-  | [b, nl, rs] => ⟨b, nl, splitOnNE rs ","⟩
-  | _ => ⟨s, s, []⟩
+  | [b, nl, rs] => ⟨b.splitOn "^", nl.splitOn "^", splitOnNE rs ","⟩
+  | _ => ⟨[s], [s], []⟩
 
 def parseAcls (s : String) : List (Name × List Line) :=
   (splitOnNE s ";").map fun a =>
@@ -98,7 +98,8 @@ def answer (line : String) : String :=
                       binds := parseBinds (get fs "bb"), routes := parseRoutes (get fs "br") }
   let sc : Scripts := { acl := parseScripts (get fs "sa"), grp := parseScripts (get fs "sg") }
   let e : Env := ⟨a, b, sc⟩
-  let validA := sc.acl.all fun p => validScript ((e.aLines p.1.1).map (·.body)) ((e.bLines p.1.2).map (·.body)) p.2
+  let key := fun (l : Line) => "$REF".intercalate l.body
+  let validA := sc.acl.all fun p => validScript ((e.aLines p.1.1).map key) ((e.bLines p.1.2).map key) p.2
   let validG := sc.grp.all fun p =>
     validScript (e.aMembers p.1.1) (e.bMembers p.1.2) p.2 && disjointEdit (e.aMembers p.1.1) (e.bMembers p.1.2) p.2
   match engine a b sc with
